@@ -1,6 +1,8 @@
 """C06 -- dumping a field and loading it back reproduces it exactly (bitwise), and re-dumps to the same bytes."""
+import os
+
 from gen import fmt, zoo
-from vlib import zoorun
+from vlib import core, zoorun
 
 LEVEL = "exploration"
 
@@ -14,6 +16,9 @@ def run(ctx):
     sh = zoorun.make_shards(ctx, stacks, "zio::drive_c06<{Z}>();", "c06", flavour="asan-dbg", extra_include="zoo_io.hpp")
     sh += zoorun.make_shards(ctx, stacks[:len(stacks) if ctx.thorough else 48], "zio::drive_c06<{Z}>();", "c06", flavour="asan-rel",
                              extra_include="zoo_io.hpp", primary=False)
+    narrow = os.path.join(core.HARNESS, "c06_narrow.cpp")
+    sh.append(dict(name="narrow-index/asan-dbg", src=narrow, flavour="asan-dbg"))
+    sh.append(dict(name="narrow-index/asan-rel", src=narrow, flavour="asan-rel", primary=False))
     runs = ctx.run_shards(sh, timeout=7200)
     # every dump is also fed to the independent format parser
     by_name = {s.name(): s for s in stacks}
@@ -39,7 +44,8 @@ def run(ctx):
               "filled with bit patterns drawn from {+-0, subnormals, +-inf, quiet and signalling NaNs with random payloads, random bits} via "
               "memcpy.  dump -> load -> compare every layer's configuration with the values passed in, every stored scalar BITWISE through the "
               "get_backend() chain, second dump byte-identical, stream consumed exactly; every dump is also parsed by the independent Python "
-              "reader of the nested grammar.  non-trivial: round holding >= 1 special bit pattern (or a storage-free stack); distinct = hash of "
+              "reader of the nested grammar.  Plus arrays with a narrow INDEX type (uint8/uint16/unsigned/int) at lengths up to and including "
+              "the full index range (256, 65536) with random bit patterns.  non-trivial: round holding >= 1 special bit pattern (or a storage-free stack); distinct = hash of "
               "(stack description, round)"),
         assumptions=["x86-64: scalar copies go through SSE moves which preserve signalling-NaN payloads (checked at -O1 and -O2 by this very run)",
                      "bit patterns are compared with memcmp, never with operator== (NaN)"],
